@@ -633,6 +633,22 @@ func (db *DB) initFromDatabaseHeader() error {
 	if err == io.EOF {
 		return nil
 	} else if err == errInvalidDatabaseHeader { // invalid file
+		// A database that is created again after it was deleted may lose its
+		// process before page 1 reaches the file (a large first transaction
+		// spills other pages first). Only its files go, the log that ends with
+		// the deletion stays and is recovered from as usual.
+		if ok, err := db.logEndsWithDeletion(); err != nil {
+			return err
+		} else if ok {
+			log.Printf("invalid database header on %q after a deletion, clearing database files", db.name)
+			for _, name := range []string{db.DatabasePath(), db.JournalPath(), db.WALPath(), db.SHMPath()} {
+				if err := db.os.Remove("INITDBHDR:CLEAN", name); err != nil && !os.IsNotExist(err) {
+					return err
+				}
+			}
+			return nil
+		}
+
 		log.Printf("invalid database header on %q, clearing data files", db.name)
 		if err := db.clean(); err != nil {
 			return fmt.Errorf("clean: %w", err)
@@ -652,6 +668,28 @@ func (db *DB) initFromDatabaseHeader() error {
 	}
 
 	return nil
+}
+
+// logEndsWithDeletion returns true if the newest transaction file of the
+// database is the one that deleted it.
+func (db *DB) logEndsWithDeletion() (bool, error) {
+	filename, err := db.maxLTXFile(context.Background())
+	if os.IsNotExist(err) {
+		return false, nil // no log yet
+	} else if err != nil || filename == "" {
+		return false, err
+	}
+	f, err := db.os.Open("INITDBHDR:LTX", filename)
+	if err != nil {
+		return false, err
+	}
+	defer func() { _ = f.Close() }()
+
+	dec := ltx.NewDecoder(f)
+	if err := dec.DecodeHeader(); err != nil {
+		return false, nil // left to the recovery that follows
+	}
+	return dec.Header().Commit == 0, nil
 }
 
 // Recover forces a rollback (journal) or checkpoint (wal).
